@@ -46,6 +46,8 @@ def run(ctx, prop="C08"):
         for v in real["violations"]:
             if v["sig"] == "real-poller-message-class" and "expected ClockErrorBoundData" in v["detail"]:
                 viol.append({"sig": "synchronised-report-not-passed-on", "detail": v["detail"], "replay": v.get("replay", "")})
+            elif v["sig"] == "report-altered-by-the-poller":
+                viol.append({"sig": "report-altered-by-the-poller", "detail": v["detail"], "replay": v.get("replay", "")})
         if real.get("inconclusive") and not inconclusive:
             inconclusive = real["inconclusive"]
         ctx.log("real poller: %s scripts, %s steps" % (real.get("evaluations"), real.get("steps")))
